@@ -463,6 +463,11 @@ def jobs_C09(tier, seed):
             jobs.append(('perm/%s/%s' % (name, ''.join(map(str, p))), job, {'scale': False, 'merge_ulps': 8, 'budget_s': 300}))
         for keep in subsets:
             m2 = dict(spec); m2['subset'] = keep
+            if '_fun' in name and len(keep) == 1:
+                # the one-component subset of a functional is the *pure* functional, which splits the same energy into
+                # differently named contributions (Pure_FMT+association, Pure_chain, ...): a per-contribution comparison
+                # by name is meaningless there (found as 18 false mismatches in the first thorough run)
+                continue
             jobs.append(('pad_subset/%s/%s' % (name, ''.join(map(str, keep))), {'job': 'pad', 'model': spec, 'model2': m2, 'keep': sorted(keep) if False else keep, 'x': x},
                          {'scale': False, 'merge_ulps': 8, 'budget_s': 300}))
             m3 = dict(spec); m3['idx'] = keep
